@@ -35,6 +35,9 @@ type c05Case struct {
 	Kind   string   `json:"kind"` // range | length | pattern | enum | bits | identityref | union
 	Base   string   `json:"base"` // built-in type
 	Levels []string `json:"levels"`
+	// Ref: the leaves written to are leafrefs to a leaf of the restricted type (RFC 7950 9.9: the
+	// value space of a leafref is that of the leaf it refers to)
+	Ref bool `json:"ref,omitempty"`
 }
 
 func (p *c05) Bounds(tier string) map[string]interface{} {
@@ -77,6 +80,15 @@ func (p *c05) Cases(tier string, emit func(interface{})) {
 	}
 	for _, pt := range [][]string{{"[0-9]+"}, {"a*"}, {"[a-c]{2}"}, {"[a-z]+&.*b.*"}, {"![0-9]+"}, {"[a-z]+", "a.*"}, {"[a-z]+", "", ".*z"}, {"a|b"}} {
 		emit(c05Case{Kind: "pattern", Base: "string", Levels: pt})
+	}
+	// the same restrictions reached through a leafref
+	for _, rc := range []c05Case{
+		{Kind: "range", Base: "int32", Levels: []string{"1..10"}}, {Kind: "range", Base: "int32", Levels: []string{"0..100", "10..50"}}, {Kind: "range", Base: "uint8", Levels: []string{"1..3|7..9"}},
+		{Kind: "range", Base: "int64", Levels: []string{"min..5|9223372036854775807"}}, {Kind: "range", Base: "decimal64", Levels: []string{"1.5..2.5"}},
+		{Kind: "length", Base: "string", Levels: []string{"1..3"}}, {Kind: "length", Base: "string", Levels: []string{"0..4", "1..2"}}, {Kind: "pattern", Base: "string", Levels: []string{"[a-c]{2}"}},
+	} {
+		rc.Ref = true
+		emit(rc)
 	}
 	emit(c05Case{Kind: "enum", Base: "enumeration"})
 	emit(c05Case{Kind: "bits", Base: "bits"})
@@ -175,9 +187,16 @@ func c05Module(c c05Case) (text string) {
 		if last != "" {
 			ty = fmt.Sprintf("type %s { %s }", prev, last)
 		}
-		fmt.Fprintf(&sb, "  leaf x { %s }\n  leaf-list xs { %s }\n", ty, ty)
-		// the restricted type as the key of a list: creating an entry must check the key first
-		fmt.Fprintf(&sb, "  list kl { key k; leaf k { %s } leaf v { type string; } }\n", ty)
+		if c.Ref {
+			fmt.Fprintf(&sb, "  leaf tgt { %s }\n", ty)
+			sb.WriteString("  leaf x { type leafref { path \"../tgt\"; } }\n  leaf-list xs { type leafref { path \"../tgt\"; } }\n")
+			sb.WriteString("  list kl { key k; leaf k { type leafref { path \"../../tgt\"; } } leaf v { type string; } }\n")
+			last = ""
+		} else {
+			fmt.Fprintf(&sb, "  leaf x { %s }\n  leaf-list xs { %s }\n", ty, ty)
+			// the restricted type as the key of a list: creating an entry must check the key first
+			fmt.Fprintf(&sb, "  list kl { key k; leaf k { %s } leaf v { type string; } }\n", ty)
+		}
 		// a sibling declared later narrows the same typedef differently (it restates the nearest
 		// range/length of the chain, which is wider than x's): restrictions of one leaf must not
 		// leak into another leaf derived from the same typedef.
@@ -620,6 +639,9 @@ func (p *c05) Run(raw json.RawMessage) eng.Result {
 	ss := &sigSet{res: &res}
 	text := c05Module(c)
 	site := fmt.Sprintf("C05/%s/%s/depth-%d", c.Kind, c.Base, len(c.Levels)-1)
+	if c.Ref {
+		site = fmt.Sprintf("C05/via-leafref/%s/%s/depth-%d", c.Kind, c.Base, len(c.Levels)-1)
+	}
 	if len(c.Levels) == 0 {
 		site = fmt.Sprintf("C05/%s", c.Kind)
 	}
